@@ -179,7 +179,7 @@ Definition check_agent (s : scen) (x : bkey -> Z) (o : agent_obs) : bool :=
       && slist_eqb (agent_outcome (ao_agent o) (rd_cbv rd) x) (ao_selected o)
   end.
 
-Inductive case2 :=
+Inductive atom2 :=
 | KOrch (c : RO.case)                 (* orchestrator bookkeeping trace (M_RepairOrch) *)
 | KRepair (s : scen) (cands : list string) (xt : list (bkey * Z))
           (obs : list agent_obs) (total : Z)
@@ -188,7 +188,7 @@ Inductive case2 :=
 | KDir (init : list (string * string)) (ops : list dirop) (final : list (string * string)).
      (* calls on the real Directory and its final _computations_data.items() *)
 
-Definition check_case2 (k : case2) : bool :=
+Definition check_atom2 (k : atom2) : bool :=
   match k with
   | KOrch c => RO.check_case c
   | KRepair s cands xt obs total =>
@@ -204,3 +204,8 @@ Definition check_case2 (k : case2) : bool :=
   | KDir init ops final =>
       list_eqb (pair_eqb String.eqb String.eqb) (dir_run init ops) final
   end.
+
+(* one generated case = everything observed on it: orchestrator trace, and for the composed
+   repair runs also the agent side and the directory *)
+Definition case2 := list atom2.
+Definition check_case2 (c : case2) : bool := forallb check_atom2 c.
